@@ -23,7 +23,10 @@ class PipeQueueCL( Component ):
 
     s.add_constraints(
       M( s.peek   ) < M( s.enq  ),
-      M( s.deq    ) < M( s.enq  )
+      M( s.deq    ) < M( s.enq  ),
+      # a caller may sample the ready signal in a block of its own
+      M( s.peek   ) < M( s.enq.rdy ),
+      M( s.deq    ) < M( s.enq.rdy ),
     )
 
   @non_blocking( lambda s: len( s.queue ) < s.queue.maxlen )
@@ -53,6 +56,9 @@ class BypassQueueCL( Component ):
     s.add_constraints(
       M( s.enq    ) < M( s.peek    ),
       M( s.enq    ) < M( s.deq     ),
+      # a caller may sample the ready signals in a block of its own
+      M( s.enq    ) < M( s.peek.rdy ),
+      M( s.enq    ) < M( s.deq.rdy  ),
     )
 
   @non_blocking( lambda s: len( s.queue ) < s.queue.maxlen )
